@@ -258,15 +258,15 @@ def traffic_configs(tier, seed):
         cfgs += [{"nodes": 1, "ppn": 1, "routing": r, "cap": c} for r in ("NONE", "NLNR") for c in (0, None)]
         cfgs += [{"nodes": 2, "ppn": 3, "routing": r, "cap": 64, "big": 40000, "nmsg": 40} for r in ("NONE", "NR", "NLNR")]
     out = []
-    reps = 1 if tier == "quick" else 3
+    reps = 1 if tier == "quick" else 2
     for i, c in enumerate(cfgs):
         for rep in range(reps):
             d = dict(c)
             d["sim_seed"] = rnd.randrange(1, 10**6)
             d["policy"] = pol[(i + rep + seed) % len(pol)]
             d["seed"] = seed * 1000 + i * 10 + rep
-            d.setdefault("big", 300 if tier == "quick" else 2000)
-            d.setdefault("nmsg", 36 if tier == "quick" else 120)
+            d.setdefault("big", 300 if tier == "quick" else 1000)
+            d.setdefault("nmsg", 36 if tier == "quick" else 80)
             d["eager"] = [50, 0, 100][(i + rep) % 3]
             out.append(d)
     return out
